@@ -166,7 +166,7 @@ impl vstd::std_specs::ops::SubSpecImpl<DateTime> for DateTime {
     open spec fn obeys_sub_spec() -> bool { true }
     /// mirrors `assert!(other <= self)`; both operands satisfy the type invariant dt_ok
     open spec fn sub_req(self, other: DateTime) -> bool {
-        dt_ok(self) && dt_ok(other) && dt_le(other, self)
+        dt_ok(self) && dt_ok(other) && dt_small(self) && dt_small(other) && dt_le(other, self)
     }
     open spec fn sub_spec(self, other: DateTime) -> Duration { dt_sub(self, other) }
 }
